@@ -94,7 +94,8 @@ Checks(r) ==
          <<"Exact",     exact => Exact(o, r)>>,
          <<"Login",     exact => LoginOK(o, r)>>,
          <<"FramedExact", (exact /\ "framed" \in DOMAIN r) => (Exact(r.framed, r) /\ LoginOK(r.framed, r))>>,
-         <<"FramedUniversal", "framed" \in DOMAIN r => (Universal(r.framed, r.line) /\ CounterOK(r.framed, r.line))>>,
+         <<"FramedUniversal", "framed" \in DOMAIN r => Universal(r.framed, r.line)>>,
+         <<"FramedCounter", "framed" \in DOMAIN r => CounterOK(r.framed, r.line)>>,
          \* the same line seen by ONE long-lived processor (one registry, one event sink for the whole run, as in the
          \* daemon): what the line adds is judged by the same predicates - no state may leak from line to line
          <<"StreamExact", exact => \A so \in StreamObs(r) : Exact(so, r) /\ LoginOK(so, r)>>,
